@@ -488,6 +488,8 @@ class Interp(object):
                 return v.kwargs[attr]
             return Opaque('%s.%s' % (v.cls.node.name, attr))
         if isinstance(v, ClassRef):
+            if attr == '__name__':
+                return v.node.name
             f = self.find_method(v, attr)
             if f is not None:
                 return FuncRef(f[0], f[2], cls=f[1])
